@@ -48,7 +48,7 @@ func (c *StorageChanges) Changes() map[uint64][][]byte {
 type StorageKey struct {
 	slot          *uint256.Int
 	offset        uint8
-	children      map[uint256.Int]map[uint8]*StorageKey
+	children      map[uint256.Int]map[uint8]map[common.Hash]*StorageKey
 	childrenIndex map[string]*StorageKey
 	changes       *StorageChanges
 	data          []byte
@@ -65,7 +65,7 @@ func NewBranchKey(slot *uint256.Int, offset uint8, typeId common.Hash, data []by
 		offset:        offset,
 		data:          data,
 		typeId:        typeId,
-		children:      make(map[uint256.Int]map[uint8]*StorageKey),
+		children:      make(map[uint256.Int]map[uint8]map[common.Hash]*StorageKey),
 		childrenIndex: make(map[string]*StorageKey),
 		nodeType:      BranchNode,
 	}
@@ -77,7 +77,7 @@ func NewBranchKey(slot *uint256.Int, offset uint8, typeId common.Hash, data []by
 // The data field for root key is the balance of the account.
 func NewRootKey() *StorageKey {
 	return &StorageKey{
-		children:      make(map[uint256.Int]map[uint8]*StorageKey),
+		children:      make(map[uint256.Int]map[uint8]map[common.Hash]*StorageKey),
 		childrenIndex: make(map[string]*StorageKey),
 		nodeType:      RootNode,
 	}
@@ -122,23 +122,35 @@ func (k *StorageKey) Offset() uint8 {
 
 // AddChild adds a child storage key to current one
 func (k *StorageKey) AddChild(child *StorageKey) (*StorageKey, error) {
+	return k.addChildAt(string(child.data), child)
+}
+
+// addChildAt binds the given index (state variable name, mapping / array key)
+// of this node to the child. An index that is already bound keeps its node:
+// binding it again to the same location is a no-op, binding it to another
+// location is refused, so that a lookup by path and a lookup by location can
+// never reach different records.
+func (k *StorageKey) addChildAt(index string, child *StorageKey) (*StorageKey, error) {
+	if bound, ok := k.childrenIndex[index]; ok {
+		if !bound.slot.Eq(child.slot) || bound.offset != child.offset || bound.typeId != child.typeId {
+			return nil, errors.New("storage key already registered at another location")
+		}
+		return bound, nil
+	}
+
 	slot, offset := child.Slot(), child.Offset()
 	if k.children[*slot] == nil {
-		k.children[*slot] = make(map[uint8]*StorageKey)
+		k.children[*slot] = make(map[uint8]map[common.Hash]*StorageKey)
+	}
+	if k.children[*slot][offset] == nil {
+		k.children[*slot][offset] = make(map[common.Hash]*StorageKey, 1)
+	}
+	if _, ok := k.children[*slot][offset][child.typeId]; !ok {
+		k.children[*slot][offset][child.typeId] = child
 	}
 
-	storageKey := string(child.data)
-	if k.childrenIndex[storageKey] == nil {
-		k.childrenIndex[storageKey] = child
-	}
-
-	existing, ok := k.children[*slot][offset]
-	if !ok {
-		k.children[*slot][offset] = child
-		return child, nil
-	}
-
-	return existing, nil
+	k.childrenIndex[index] = child
+	return child, nil
 }
 
 func (k *StorageKey) Changes() *StorageChanges {
@@ -208,25 +220,33 @@ func (s *StateChanges) saveKey(account common.Address, parent, self, offset *uin
 		offsetU8 = uint8(offsetU64)
 	}
 
-	var child *StorageKey
+	var parentKey *StorageKey
 	if parent == nil {
 		// dealing with top level state var
 		if s.roots[account] == nil {
 			s.roots[account] = NewRootKey()
 		}
-		child, err = s.roots[account].AddChild(NewBranchKey(self, offsetU8, typeId, index))
+		parentKey = s.roots[account]
 	} else {
 		// dealing with nested state var
-		parentKey := s.findKey(account, parent, 0, parentTypeId)
+		parentKey = s.findKey(account, parent, 0, parentTypeId)
 		if parentKey == nil {
 			return errors.New("parent key not found")
 		}
-
-		child, err = parentKey.AddChild(NewBranchKey(self, offsetU8, typeId, index))
 	}
 
+	// a location (slot, offset, type) has exactly one record: registering it again
+	// through the same path is a no-op, through another path it is refused
+	if existing := s.findKey(account, self, offsetU8, typeId); existing != nil {
+		if bound, ok := parentKey.childrenIndex[string(index)]; !ok || bound != existing {
+			return errors.New("storage location already registered under another key")
+		}
+		return nil
+	}
+
+	child, err := parentKey.addChildAt(string(index), NewBranchKey(self, offsetU8, typeId, index))
 	if err != nil {
-		return
+		return err
 	}
 
 	s.addKey(account, child.Slot(), child.Offset(), child)
